@@ -607,7 +607,21 @@ func runInBubble(t *testing.T, f func(), run *Run) (leaked bool) {
 					leaked = true
 					return
 				}
-				run.Fail("panic", "", "panic escaped bubble: %v", r)
+				// a deadlock of the bubble leaves its goroutines parked: their
+				// stacks say who waits for whom
+				buf := make([]byte, 1<<20)
+				buf = buf[:runtime.Stack(buf, true)]
+				var keep []string
+				for _, g := range strings.Split(string(buf), "\n\n") {
+					if strings.Contains(g, "synctest") && !strings.Contains(g, "testing.tRunner") {
+						keep = append(keep, g)
+					}
+				}
+				stacks := strings.Join(keep, "\n\n")
+				if len(stacks) > 60000 {
+					stacks = stacks[:60000]
+				}
+				run.Fail("panic", "", "panic escaped bubble: %v\n%s", r, stacks)
 			}
 		}()
 		synctest.Test(t, func(st *testing.T) {
